@@ -313,6 +313,13 @@ def env_origin_ok(f, ptr):
         if ins.op == 'call' and ins.callee in ('myth_get_current_env_noinline', 'myth_get_current_env'):
             continue
         if ins.op == 'load' and f.field(ins) == 'myth_thread.env':
+            # only the RUNNING thread's env field names the executing worker: the thread is a parameter (entry point /
+            # callback argument) or was read from <env>->this_thread; a woken or popped thread's env field is stale
+            tsrc = f.sources(f.ap(ins.ops[0]).root)
+            bad = [t for t in tsrc if not ((t not in f.insts and t.startswith('a')) or
+                                           (t in f.insts and f.insts[t].op == 'load' and f.field(f.insts[t]) == 'myth_running_env.this_thread'))]
+            if bad:
+                return False, 'env is the env field of %s, not of the running thread' % expr_str(f, bad[0])
             continue
         return False, 'env comes from %s' % expr_str(f, k)
     return True, params
@@ -760,6 +767,10 @@ WSQ = 'src/myth_wsqueue_func.h'
 NAT = 'src/myth_if_native.c'
 SCHED = 'src/myth_sched_func.h'
 MUTANTS = [
+    {'name': 'uncond signal pushes on the run queue of the waiter\'s previous worker: owner-only push from a non-owner (hand mutant r6)', 'expect': 'C02.5',
+     'edits': [('src/myth_sync_func.h', "  to_wake->env = env;\n  u->th = 0;\n  myth_queue_push(&env->runnable_q, to_wake);\n  return 0;", "  u->th = 0;\n  myth_queue_push(&to_wake->env->runnable_q, to_wake);\n  return 0;")]},
+    {'name': 'uncond wait always switches to the scheduler: the popped thread is dropped (hand mutant r6; verdict must be the violation, not the sibling floor)', 'expect': 'C02.6',
+     'edits': [('src/myth_sync_func.h', "    next_ctx = &next->context;\n  } else {\n    /* no runnable thread -> scheduler */\n    next_ctx = &env->sched.context;\n  }\n  /* now save the current context, myth_sleep_queue_enq_th(q, cur)\n     to put cur in the q, and jump to next_ctx */\n  myth_swap_context_withcall(&cur->context, next_ctx,\n\t\t\t     myth_uncond_wait_cb", "    next_ctx = &env->sched.context;\n  } else {\n    /* no runnable thread -> scheduler */\n    next_ctx = &env->sched.context;\n  }\n  /* now save the current context, myth_sleep_queue_enq_th(q, cur)\n     to put cur in the q, and jump to next_ctx */\n  myth_swap_context_withcall(&cur->context, next_ctx,\n\t\t\t     myth_uncond_wait_cb")]},
     {'name': 'wsapi take treats a queue with one entry as empty (seed5 C02/m1)', 'expect': 'C02.10',
      'edits': [('src/myth_if_native.c', "  q = &g_envs[victim].runnable_q;\n  wc = &q->wc;\n#if QUICK_CHECK_ON_STEAL\n  if (q->top-q->base<=0){", "  q = &g_envs[victim].runnable_q;\n  wc = &q->wc;\n#if QUICK_CHECK_ON_STEAL\n  if (q->top-1<=q->base){")]},
     {'name': 'victim selection never picks the right-hand neighbour (seed4 C02/m1)', 'expect': 'C02.13',
